@@ -153,9 +153,8 @@ def run(tier):
         extra.append(directed(L, "map8"))
     # the limit equal to the maximum of the token type: the cursor wraps to 0 after the top token
     # (never exhausted: the scan of a full table with this limit does not terminate in the code)
-    for mode, top in (("map8", 255), ("map16", 65535)):
-        if mode == "map16" and not thorough:
-            continue
+    # (the same history for a 16-bit token type would make the fold quadratic in 65 535 live tokens: not run)
+    for mode, top in (("map8", 255),):
         h = ["reset %d %s" % (top, mode)] + ["get"] * (top - 1) + ["remove 1", "remove 7", "get", "get", "lookup 1",
                                                                    "get", "lookup 7", "remove %d" % top, "get", "lookup %d" % top]
         extra.append(h)
